@@ -1,11 +1,12 @@
 #!/bin/sh
 # usage: seed_matrix.sh [names...] : for every seeded change, apply it to a scratch worktree of /repo (never to /repo
-# itself), run the quick check of its property (and of the properties listed in meta "also") against that worktree,
-# undo; appends one line per run to seeded/MATRIX.txt.  Scratch: /tmp/mxrepo (removed at the end).
+# itself; path $MXREPO, default /tmp/mxrepo), run the quick check of its property (and of the properties listed in meta "also") against that worktree,
+# undo; appends one line per run to seeded/MATRIX.txt.  Scratch: $MX (removed at the end).
 cd ${VERIF_DIR:-/verif} || exit 2
+MX=${MXREPO:-/tmp/mxrepo}
 names="$@"; [ -z "$names" ] && names=$(ls seeded | grep -E '^(C[0-9]+[a-z]|fixrev_)')
-rm -rf /tmp/mxrepo; git -C /repo worktree prune; git -C /repo worktree add -q --detach /tmp/mxrepo HEAD || exit 2
-export XEOFS_REPO=/tmp/mxrepo VERIF_WORK=/tmp/mx_work VERIF_EVIDENCE_DIR=/tmp/mx_evid VERIF_REPLAYS_DIR=/tmp/mx_replays
+rm -rf $MX; git -C /repo worktree prune; git -C /repo worktree add -q --detach $MX HEAD || exit 2
+export XEOFS_REPO=$MX VERIF_WORK=${MX}_work VERIF_EVIDENCE_DIR=${MX}_evid VERIF_REPLAYS_DIR=${MX}_replays
 for n in $names; do
   d=seeded/$n
   [ -f $d/patch.diff ] || continue
@@ -18,14 +19,14 @@ ps+=m.get('also',[])
 print(' '.join(ps))")
   [ -z "$props" ] && continue
   if grep -q superseded_by $d/meta.json 2>/dev/null; then echo "$n: SUPERSEDED by a later fix (see meta.json)" | tee -a seeded/MATRIX.txt; continue; fi
-  if ! git -C /tmp/mxrepo apply --check $PWD/$d/patch.diff 2>/dev/null; then echo "$n: PATCH DOES NOT APPLY" | tee -a seeded/MATRIX.txt; continue; fi
-  git -C /tmp/mxrepo apply $PWD/$d/patch.diff
+  if ! git -C $MX apply --check $PWD/$d/patch.diff 2>/dev/null; then echo "$n: PATCH DOES NOT APPLY" | tee -a seeded/MATRIX.txt; continue; fi
+  git -C $MX apply $PWD/$d/patch.diff
   for id in $props; do
     ./check $id --tier quick > /tmp/mx_${n}_$id.log 2>&1; rc=$?
     echo "$n $id rc=$rc $(grep -c '^VIOLATION' /tmp/mx_${n}_$id.log) | $(grep -m1 '^VIOLATION' /tmp/mx_${n}_$id.log | sed 's/^VIOLATION property=[A-Z0-9]* replay=[^ ]* *//' | cut -c1-170)" | tee -a seeded/MATRIX.txt
   done
-  git -C /tmp/mxrepo checkout -q -- .
-  git -C /tmp/mxrepo clean -fdq
+  git -C $MX checkout -q -- .
+  git -C $MX clean -fdq
 done
-git -C /repo worktree remove --force /tmp/mxrepo
-rm -rf /tmp/mx_work /tmp/mx_evid /tmp/mx_replays
+git -C /repo worktree remove --force $MX
+rm -rf ${MX}_work ${MX}_evid ${MX}_replays
